@@ -170,11 +170,17 @@ Proof.
   apply andb_true_iff in H as [H1 H2]. apply Nat.eqb_eq in H1. f_equal; auto.
 Qed.
 
-Lemma in_upto : forall n k, k < n -> In k (upto n).
+Lemma in_upto_acc : forall n acc k, (k < n \/ In k acc) -> In k (upto_acc n acc).
 Proof.
-  induction n as [|n IH]; intros k Hk; [lia|]. simpl. apply in_or_app.
-  destruct (Nat.eq_dec k n) as [->|Hne]; [right; left; reflexivity | left; apply IH; lia].
+  induction n as [|n IH]; intros acc k H; simpl.
+  - destruct H as [H|H]; [lia | exact H].
+  - apply IH. destruct (Nat.eq_dec k n) as [->|Hne].
+    + right; left; reflexivity.
+    + destruct H as [H|H]; [left; lia | right; right; exact H].
 Qed.
+
+Lemma in_upto : forall n k, k < n -> In k (upto n).
+Proof. intros n k H. apply in_upto_acc. left. exact H. Qed.
 
 Lemma nat_of_ascii_lt : forall c, nat_of_ascii c < 128 \/ 128 <= nat_of_ascii c.
 Proof. intro c. lia. Qed.
@@ -184,7 +190,7 @@ Lemma codes_of_spec : forall p n, printable_code n = true ->
 Proof.
   intros p n Hp. unfold codes_of. rewrite filter_In. split.
   - intros [_ H]. rewrite Hp in H. exact H.
-  - intro H. split; [|rewrite Hp, H; reflexivity]. apply in_upto.
+  - intro H. split; [|rewrite Hp; exact H]. apply in_upto.
     unfold printable_code in Hp.
     repeat (apply orb_true_iff in Hp as [Hp|Hp]); try (apply Nat.eqb_eq in Hp; lia).
     apply andb_true_iff in Hp as [_ Hp]. apply Nat.leb_le in Hp. lia.
